@@ -41,21 +41,28 @@ var wireSeq int
 // (schedule point "tsmuxer.beforePop" of mpegts.Muxer.process): the n-th frame pushed to a muxer
 // has been processed completely — packetised, written to the segment, segment reaped — when the
 // muxer has come back n+1 times.  Only wire sessions create TS muxers and they run one at a time.
-var tsPops int64
+var tsPops, flvPops int64
 
 func init() {
 	verifhook.Set(func(point string, id uint32) {
-		if point == "tsmuxer.beforePop" {
+		switch point {
+		case "tsmuxer.beforePop":
 			atomic.AddInt64(&tsPops, 1)
+		case "flvmuxer.beforePop":
+			atomic.AddInt64(&flvPops, 1)
 		}
 	})
 }
 
 func wireSdp(k *hcase) string {
 	ch := 1
+	sprop := ";sprop-parameter-sets=" + base64.StdEncoding.EncodeToString(k.sps) + "," + base64.StdEncoding.EncodeToString(k.pps)
+	if k.inband {
+		sprop = "" // the camera announces no parameter sets: they come in-band
+	}
 	return "v=0\r\no=- 0 0 IN IP4 127.0.0.1\r\ns=verif\r\nc=IN IP4 0.0.0.0\r\nt=0 0\r\n" +
 		"m=video 0 RTP/AVP 96\r\na=rtpmap:96 H264/90000\r\n" +
-		"a=fmtp:96 packetization-mode=1;sprop-parameter-sets=" + base64.StdEncoding.EncodeToString(k.sps) + "," + base64.StdEncoding.EncodeToString(k.pps) + "\r\n" +
+		"a=fmtp:96 packetization-mode=1" + sprop + "\r\n" +
 		"a=control:streamid=0\r\n" +
 		fmt.Sprintf("m=audio 0 RTP/AVP 97\r\na=rtpmap:97 MPEG4-GENERIC/%d/%d\r\n", k.rate, ch) +
 		"a=fmtp:97 streamtype=5;profile-level-id=1;mode=AAC-hbr;sizelength=13;indexlength=3;indexdeltalength=3;config=" + Hx(k.ascraw) + "\r\n" +
@@ -73,6 +80,7 @@ func genWireCase(c *Ctx) *hcase {
 	k.sps, _ = base64.StdEncoding.DecodeString("Z0IAKeKQFAe2AtwEBAaQeJEV")
 	k.pps, _ = base64.StdEncoding.DecodeString("aM48gA==")
 	k.ascraw = aac.Encode2BytesASC(2, byte(rateIdx[k.rate]), 1)
+	k.inband = c.Rng.Chance(40)
 	frameDur := int64([]int{18000, 30000, 45000}[c.Rng.Intn(3)])
 	gopFrames := int64(2 + c.Rng.Intn(20))
 	if c.Rng.Chance(25) {
@@ -88,6 +96,10 @@ func genWireCase(c *Ctx) *hcase {
 			typ := byte(1)
 			if vi%gopFrames == 0 {
 				typ = 5
+			}
+			if vi == 0 && k.inband {
+				k.evs = append(k.evs, event{kind: 'v', dts: nsOfTicks(t0 + vt), pts: nsOfTicks(t0 + vt), payload: k.sps})
+				k.evs = append(k.evs, event{kind: 'v', dts: nsOfTicks(t0 + vt), pts: nsOfTicks(t0 + vt), payload: k.pps})
 			}
 			k.evs = append(k.evs, event{kind: 'v', dts: nsOfTicks(t0 + vt), pts: nsOfTicks(t0 + vt), payload: genNal(c, typ, 3+c.Rng.Intn(30))})
 			vt += frameDur
@@ -142,6 +154,7 @@ func runWire(k *hcase, in string) (res result) {
 	xlog.ReplaceGlobal(xlog.New(xlog.NewNopCore()))
 	path := k.path
 	pops0 := atomic.LoadInt64(&tsPops) // before the muxer goroutine of this stream exists
+	flv0 := atomic.LoadInt64(&flvPops)
 	s := media.NewStream(path, wireSdp(k))
 	media.Regist(s)
 	defer func() {
@@ -279,6 +292,14 @@ func runWire(k *hcase, in string) (res result) {
 		switch e.kind {
 		case 'v':
 			res.tokens = append(res.tokens, fmt.Sprintf("v:%d:%d:%s", e.dts, e.pts, Hx(e.payload)))
+			if k.inband && len(e.payload) > 0 && (e.payload[0]&0x1f == 7 || e.payload[0]&0x1f == 8) {
+				// the TS muxer goroutine is idle here (settled) and the FLV muxer goroutine, which shares
+				// the stream's metadata too, is given the time to get there (no verdict: it may have ended)
+				for w := time.Now().Add(30 * time.Second); atomic.LoadInt64(&flvPops)-flv0 < pushed+1 && time.Now().Before(w); {
+					time.Sleep(100 * time.Microsecond)
+				}
+				learnParamSet(&s.Video, e.payload)
+			}
 			s.WriteFrame(&codec.Frame{MediaType: codec.MediaTypeVideo, Dts: e.dts, Pts: e.pts, Payload: e.payload})
 			pushed++
 			if !stalled && !settle() {
